@@ -706,3 +706,365 @@ Proof.
   apply rd_floors_wf in E6; [|exact Hnb]. apply rd_residues_wf in E8. apply rd_maps_wf in E10. apply rd_modes_wf in E12.
   unfold setup_wf. cbn. repeat split; try lia; tauto.
 Qed.
+
+(* ------------------------------------------------------------------ *)
+(* every successful codeword look-up strictly consumes bits             *)
+(* ------------------------------------------------------------------ *)
+Definition is_node (t : htree) : Prop := match t with HNode _ _ => True | _ => False end.
+
+Lemma hinsert_node t b r e : is_node (hinsert t (b :: r) e).
+Proof. destruct t as [|e0|z o], b; exact I. Qed.
+
+Lemma mw_assign_lengths : forall lens idx mk ws mk', mw_assign lens idx mk = Some (ws, mk') ->
+  Forall (fun w => let '(e, l, c) := w in 0 < l) ws.
+Proof.
+  induction lens as [|l rest IH]; intros idx mk ws mk' H; cbn [mw_assign] in H.
+  - inversion H; constructor.
+  - destruct (l >? 0) eqn:El.
+    + destruct ((l <? 32) && negb (Z.shiftr (mget mk l) l =? 0)); [discriminate|].
+      destruct (mw_assign rest (idx + 1) _) as [[ws1 mk1]|] eqn:E; [|discriminate].
+      inversion H; subst. constructor; [lia|eapply IH; exact E].
+    + eapply IH; exact H.
+Qed.
+
+Lemma build_tree_node : forall ws, ws <> [] -> Forall (fun w => let '(e, l, c) := w in 0 < l) ws -> is_node (build_tree ws).
+Proof.
+  intros ws Hne Hl. unfold build_tree.
+  assert (forall ws t, Forall (fun w => let '(e, l, c) := w in 0 < l) ws -> (is_node t \/ ws <> []) ->
+          is_node (fold_left (fun t w => let '(e, l, c) := w in hinsert t (cw_bits (Z.to_nat l) c) e) ws t)) as G.
+  { induction ws0 as [|[[e l] c] rest IH]; intros t Hf Hor; cbn [fold_left].
+    - destruct Hor as [H|H]; [exact H|congruence].
+    - inversion Hf as [|? ? Hl0 Hrest]; subst. apply IH; [exact Hrest|left].
+      destruct (Z.to_nat l) as [|k] eqn:Ek; [lia|]. cbn [cw_bits]. apply hinsert_node. }
+  apply G; [exact Hl|right; exact Hne].
+Qed.
+
+Theorem book_decode_progress b d bs e r :
+  init_book b = Some d -> book_decode d bs = (Some e, r) -> (length r < length bs)%nat.
+Proof.
+  unfold init_book. intros Hi Hd.
+  set (used := Z.of_nat (length (filter (fun l => l >? 0) (b_lengths b)))) in *.
+  destruct (used =? 0) eqn:Eu.
+  - inversion Hi; subst. unfold book_decode in Hd. cbn [d_used] in Hd. rewrite Eu in Hd. discriminate.
+  - destruct (make_words (b_lengths b)) as [ws|] eqn:Em; [|discriminate]. inversion Hi; subst. clear Hi.
+    unfold book_decode in Hd. cbn [d_used d_single d_first d_tree] in Hd. rewrite Eu in Hd.
+    destruct ((used =? 1) && (zmax_list (b_lengths b) 0 =? 1)).
+    + destruct bs as [|x bs]; inversion Hd; subst. cbn. lia.
+    + destruct (hwalk (build_tree ws) bs) as [[e' r']|] eqn:Ew; inversion Hd; subst.
+      unfold make_words in Em. destruct (mw_assign (b_lengths b) 0 (repeat 0 33)) as [[ws0 mk]|] eqn:Ea; [|discriminate].
+      pose proof (mw_assign_lengths _ _ _ _ _ Ea) as Hl.
+      assert (ws = ws0) as -> by (destruct ((Z.of_nat (length ws0) =? 1) && (mget mk 2 =? 2)); [inversion Em; reflexivity|destruct (under_populated 40 mk 1); [discriminate|inversion Em; reflexivity]]).
+      destruct ws0 as [|w0 wr].
+      * cbn in Ew. destruct bs; discriminate.
+      * pose proof (build_tree_node (w0 :: wr) ltac:(discriminate) Hl) as Hn.
+        destruct (build_tree (w0 :: wr)) as [|?|z o]; try contradiction.
+        eapply hwalk_progress; exact Ew.
+Qed.
+
+(* ------------------------------------------------------------------ *)
+(* the working vectors keep their length through residue decode,        *)
+(* coupling and the floor product: every channel ends with exactly      *)
+(* n/2 spectral lines                                                   *)
+(* ------------------------------------------------------------------ *)
+Definition VL (n : nat) (vecs : list (list f32)) : Prop := Forall (fun v => length v = n) vecs.
+
+Lemma lset_VL n vecs j v : VL n vecs -> length v = n -> VL n (lset vecs j v).
+Proof.
+  unfold VL. revert j; induction vecs as [|h t IH]; intros j Hv Hl; destruct j; cbn; auto;
+    inversion Hv; subst; constructor; auto.
+Qed.
+Lemma nth_VL n vecs j : VL n vecs -> (j < length vecs)%nat -> length (nth j vecs []) = n.
+Proof. intros H Hj. unfold VL in H. rewrite Forall_forall in H. apply H. apply nth_In. exact Hj. Qed.
+Lemma lset_same_len {A} (l : list A) j v : length (lset l j v) = length l.
+Proof. apply lset_length. Qed.
+Lemma lset_oob {A} : forall (l : list A) j v, (length l <= j)%nat -> lset l j v = l.
+Proof. induction l as [|h t IH]; intros [|j] v H; cbn in *; try reflexivity; try lia. f_equal. apply IH. lia. Qed.
+
+Lemma decodev_add_len : forall fuel d vec off n i bs vec' bs' ok,
+  decodev_add fuel d vec off n i bs = (vec', bs', ok) -> length vec' = length vec.
+Proof.
+  induction fuel as [|f IH]; intros d vec off n i bs vec' bs' ok H; cbn [decodev_add] in H; [inversion H; reflexivity|].
+  destruct (i >=? n); [inversion H; reflexivity|].
+  destruct (bdec d bs) as [[e|] r]; [|inversion H; reflexivity].
+  destruct (length (firstn (Z.to_nat (n - i)) (book_vector d e)) =? 0)%nat; [inversion H; reflexivity|].
+  apply IH in H. rewrite H. apply add_at_length.
+Qed.
+Lemma fold_add_at_len {A} (f : A -> nat) (g : A -> list f32) : forall (l : list A) vec,
+  length (fold_left (fun v i => add_at (f i) (g i) v) l vec) = length vec.
+Proof. induction l as [|x r IH]; intros vec; cbn; [reflexivity|]. rewrite IH. apply add_at_length. Qed.
+Lemma decodevs_add_len d vec off n bs vec' bs' ok :
+  decodevs_add d vec off n bs = (vec', bs', ok) -> length vec' = length vec.
+Proof.
+  unfold decodevs_add. destruct (decode_n _ d bs) as [[es|] r]; intros H; inversion H; subst; [|reflexivity].
+  apply fold_add_at_len.
+Qed.
+
+Lemma vv_scatter_VL n : forall t vecs ch i chptr m vecs' i' c',
+  VL n vecs -> vv_scatter vecs ch t i chptr m = (vecs', i', c') -> VL n vecs' /\ length vecs' = length vecs.
+Proof.
+  induction t as [|x r IH]; intros vecs ch i chptr m vecs' i' c' Hv H; cbn [vv_scatter] in H; [inversion H; subst; auto|].
+  destruct (i >=? m); [inversion H; subst; auto|].
+  set (v := nth (Z.to_nat chptr) vecs []) in *.
+  assert (VL n (lset vecs (Z.to_nat chptr) (add_at (Z.to_nat i) [x] v)) /\
+          length (lset vecs (Z.to_nat chptr) (add_at (Z.to_nat i) [x] v)) = length vecs) as [Hv1 Hl1].
+  { split; [|apply lset_length].
+    destruct (Nat.ltb (Z.to_nat chptr) (length vecs)) eqn:El.
+    - apply Nat.ltb_lt in El. apply lset_VL; [exact Hv|]. rewrite add_at_length. apply nth_VL; assumption.
+    - apply Nat.ltb_ge in El. rewrite lset_oob by exact El. exact Hv. }
+  destruct (chptr + 1 =? ch); apply IH in H; try exact Hv1; destruct H as [A B]; split; try exact A; lia.
+Qed.
+Lemma decodevv_add_VL n : forall fuel d vecs ch i chptr m bs vecs' bs' ok,
+  VL n vecs -> decodevv_add fuel d vecs ch i chptr m bs = (vecs', bs', ok) -> VL n vecs' /\ length vecs' = length vecs.
+Proof.
+  induction fuel as [|f IH]; intros d vecs ch i chptr m bs vecs' bs' ok Hv H; cbn [decodevv_add] in H; [inversion H; subst; auto|].
+  destruct (i >=? m); [inversion H; subst; auto|].
+  destruct (bdec d bs) as [[e|] r]; [|inversion H; subst; auto].
+  destruct (length (book_vector d e) =? 0)%nat; [inversion H; subst; auto|].
+  destruct (vv_scatter vecs ch (book_vector d e) i chptr m) as [[v1 i1] c1] eqn:Es.
+  apply (vv_scatter_VL n) in Es; [|exact Hv]. destruct Es as [A B].
+  apply IH in H; [|exact A]. destruct H as [C D]. split; [exact C|lia].
+Qed.
+
+(* the residue state invariant *)
+Definition RInv (n k : nat) (st : rstate) : Prop := VL n (rs_vecs st) /\ length (rs_vecs st) = k.
+
+Lemma r01_chan_inv n k ds r s dim i l kk : forall nch j st, RInv n k st -> RInv n k (r01_chan ds r s dim i l kk j nch st).
+Proof.
+  induction nch as [|c IH]; intros j st H; cbn [r01_chan]; [exact H|].
+  destruct (negb (rs_go st)); [exact H|]. apply IH.
+  destruct (Z.testbit _ s); [|exact H].
+  destruct (stage_index _ _ s 0) as [bi|]; [|exact H].
+  destruct (d_used _ =? 0); [exact H|].
+  destruct H as [Hv Hk].
+  set (vec := nth j (rs_vecs st) []).
+  assert (exists vec' bs' ok, (if r_type r =? 0 then decodevs_add (dbk ds (zn (r_booklist r) bi)) vec (r_begin r + i * r_grouping r) (r_grouping r) (rs_bits st)
+            else decodev_add (Z.to_nat (r_grouping r) + 1) (dbk ds (zn (r_booklist r) bi)) vec (r_begin r + i * r_grouping r) (r_grouping r) 0 (rs_bits st)) = (vec', bs', ok)
+            /\ length vec' = length vec) as (vec' & bs' & ok & Ed & Hl).
+  { destruct (r_type r =? 0).
+    - destruct (decodevs_add _ vec _ _ _) as [[v1 b1] o1] eqn:E. exists v1, b1, o1. split; [reflexivity|eapply decodevs_add_len; exact E].
+    - destruct (decodev_add _ _ vec _ _ _ _) as [[v1 b1] o1] eqn:E. exists v1, b1, o1. split; [reflexivity|eapply decodev_add_len; exact E]. }
+  fold vec. rewrite Ed.
+  unfold RInv. cbn [rs_vecs]. rewrite lset_length. split; [|exact Hk].
+  destruct (Nat.ltb j (length (rs_vecs st))) eqn:El.
+  - apply Nat.ltb_lt in El. apply lset_VL; [exact Hv|]. rewrite Hl. apply nth_VL; assumption.
+  - apply Nat.ltb_ge in El. rewrite lset_oob by exact El. exact Hv.
+Qed.
+Lemma r01_k_inv n k ds r s dim partvals nch : forall cnt i l kk st st' i',
+  RInv n k st -> r01_k ds r s dim partvals nch i l kk cnt st = (st', i') -> RInv n k st'.
+Proof.
+  induction cnt as [|c IH]; intros i l kk st st' i' H E; cbn [r01_k] in E; [inversion E; subst; exact H|].
+  destruct (negb (rs_go st) || (i >=? partvals)); [inversion E; subst; exact H|].
+  eapply IH; [|exact E]. apply r01_chan_inv. exact H.
+Qed.
+Lemma r01_fetch_inv n k ds r : forall nch j st, RInv n k st -> RInv n k (r01_fetch ds r nch j st).
+Proof.
+  induction nch as [|c IH]; intros j st H; cbn [r01_fetch]; [exact H|].
+  destruct (negb (rs_go st)); [exact H|].
+  destruct (bdec _ (rs_bits st)) as [[temp|] b]; [|exact H].
+  destruct (temp >=? r_partvals r); [exact H|]. apply IH. exact H.
+Qed.
+Lemma r01_parts_inv n k ds r s dim partvals nch : forall fuel i l st,
+  RInv n k st -> RInv n k (r01_parts fuel ds r s dim partvals nch i l st).
+Proof.
+  induction fuel as [|f IH]; intros i l st H; cbn [r01_parts]; [exact H|].
+  destruct (negb (rs_go st) || (i >=? partvals)); [exact H|].
+  set (st1 := if s =? 0 then r01_fetch ds r nch 0 st else st).
+  assert (RInv n k st1) as H1 by (unfold st1; destruct (s =? 0); [apply r01_fetch_inv; exact H|exact H]).
+  destruct (negb (rs_go st1)); [exact H1|].
+  destruct (r01_k ds r s dim partvals nch i l 0 (Z.to_nat dim) st1) as [st2 i'] eqn:Ek.
+  apply IH. eapply r01_k_inv; [exact H1|exact Ek].
+Qed.
+Lemma r01_stages_inv n k ds r dim partvals nch : forall cnt s st,
+  RInv n k st -> RInv n k (r01_stages ds r dim partvals nch s cnt st).
+Proof.
+  induction cnt as [|c IH]; intros s st H; cbn [r01_stages]; [exact H|].
+  destruct (negb (rs_go st)); [exact H|]. apply IH. apply r01_parts_inv. exact H.
+Qed.
+Lemma res01_inverse_VL n ds r halfn vecs bs vecs' bs' :
+  VL n vecs -> res01_inverse ds r halfn vecs bs = (vecs', bs') -> VL n vecs' /\ length vecs' = length vecs.
+Proof.
+  unfold res01_inverse. intros Hv H.
+  destruct ((_ >? 0) && negb (length vecs =? 0)%nat); [|inversion H; subst; auto].
+  inversion H; subst. clear H.
+  pose proof (r01_stages_inv n (length vecs) ds r (b_dim (d_src (dbk ds (r_groupbook r)))) 
+                (Z.quot ((if r_end r <? halfn then r_end r else halfn) - r_begin r) (r_grouping r)) (length vecs)
+                (Z.to_nat (res_stages r)) 0
+                {| rs_vecs := vecs; rs_bits := bs; rs_pw := repeat [] (length vecs); rs_go := true |}) as G.
+  destruct G as [A B]; [split; [exact Hv|reflexivity]|]. split; assumption.
+Qed.
+
+Lemma r2_k_inv n k ds r s dim partvals ch : forall cnt i l kk st st' i',
+  RInv n k st -> r2_k ds r s dim partvals ch i l kk cnt st = (st', i') -> RInv n k st'.
+Proof.
+  induction cnt as [|c IH]; intros i l kk st st' i' H E; cbn [r2_k] in E; [inversion E; subst; exact H|].
+  destruct (negb (rs_go st) || (i >=? partvals)); [inversion E; subst; exact H|].
+  eapply IH; [|exact E].
+  destruct (Z.testbit _ s); [|exact H].
+  destruct (stage_index _ _ s 0) as [bi|]; [|exact H].
+  destruct (d_used _ =? 0); [exact H|].
+  match goal with |- context [decodevv_add ?a ?b ?c ?d ?e ?f ?g ?h] => destruct (decodevv_add a b c d e f g h) as [[vecs' bs'] ok] eqn:Ed end.
+  destruct H as [Hv Hk]. apply (decodevv_add_VL n) in Ed; [|exact Hv]. destruct Ed as [A B].
+  unfold RInv. cbn [rs_vecs]. split; [exact A|lia].
+Qed.
+Lemma r2_parts_inv n k ds r s dim partvals ch : forall fuel i l st,
+  RInv n k st -> RInv n k (r2_parts fuel ds r s dim partvals ch i l st).
+Proof.
+  induction fuel as [|f IH]; intros i l st H; cbn [r2_parts]; [exact H|].
+  destruct (negb (rs_go st) || (i >=? partvals)); [exact H|].
+  set (st1 := if s =? 0 then r01_fetch ds r 1 0 st else st).
+  assert (RInv n k st1) as H1 by (unfold st1; destruct (s =? 0); [apply r01_fetch_inv; exact H|exact H]).
+  destruct (negb (rs_go st1)); [exact H1|].
+  destruct (r2_k ds r s dim partvals ch i l 0 (Z.to_nat dim) st1) as [st2 i'] eqn:Ek.
+  apply IH. eapply r2_k_inv; [exact H1|exact Ek].
+Qed.
+Lemma r2_stages_inv n k ds r dim partvals ch : forall cnt s st,
+  RInv n k st -> RInv n k (r2_stages ds r dim partvals ch s cnt st).
+Proof.
+  induction cnt as [|c IH]; intros s st H; cbn [r2_stages]; [exact H|].
+  destruct (negb (rs_go st)); [exact H|]. apply IH. apply r2_parts_inv. exact H.
+Qed.
+Lemma res2_inverse_VL n ds r halfn vecs nz bs vecs' bs' :
+  VL n vecs -> res2_inverse ds r halfn vecs nz bs = (vecs', bs') -> VL n vecs' /\ length vecs' = length vecs.
+Proof.
+  unfold res2_inverse. intros Hv H.
+  destruct ((_ >? 0) && existsb (fun b => b) nz); [|inversion H; subst; auto].
+  inversion H; subst. clear H.
+  match goal with |- context [r2_stages ds r ?dim ?pv ?ch 0 ?cnt ?st0] =>
+    pose proof (r2_stages_inv n (length vecs) ds r dim pv ch cnt 0 st0) as G end.
+  destruct G as [A B]; [split; [exact Hv|reflexivity]|]. split; assumption.
+Qed.
+
+Lemma put_back_VL n : forall idx vals all, VL n all -> VL n vals -> VL n (put_back idx vals all).
+Proof.
+  induction idx as [|i rest IH]; intros vals all Ha Hv; [exact Ha|].
+  destruct vals as [|v vr]; [exact Ha|]. cbn [put_back]. inversion Hv as [|v0 vr0 Hlen Hrest].
+  apply IH; [|exact Hrest].
+  destruct (Nat.ltb i (length all)) eqn:El.
+  - apply lset_VL; [exact Ha|exact Hlen].
+  - apply Nat.ltb_ge in El. rewrite lset_oob by exact El. exact Ha.
+Qed.
+Lemma put_back_len {A} : forall (idx : list nat) (vals all : list A), length (put_back idx vals all) = length all.
+Proof.
+  induction idx as [|i rest IH]; intros vals all; [reflexivity|]. destruct vals as [|v vr]; [reflexivity|].
+  cbn [put_back]. rewrite IH. apply lset_length.
+Qed.
+Lemma map_nth_VL n (pcm : list (list f32)) (idx : list nat) :
+  VL n pcm -> (forall j, In j idx -> (j < length pcm)%nat) -> VL n (map (fun j => nth j pcm []) idx).
+Proof.
+  intros Hv Hin. unfold VL. apply Forall_forall. intros v Hm. apply in_map_iff in Hm. destruct Hm as [j [<- Hj]].
+  apply nth_VL; [exact Hv|apply Hin; exact Hj].
+Qed.
+Lemma chans_of_lt mux sub j : In j (chans_of mux sub) -> (j < length mux)%nat.
+Proof. unfold chans_of. intros H. apply filter_In in H. destruct H as [H _]. apply in_seq in H. lia. Qed.
+
+Lemma residues_in_VL n ds m halfn nz : forall cnt sub pcm bs pcm' bs',
+  VL n pcm -> length pcm = length (m_mux m) ->
+  residues_in ds m halfn nz sub cnt pcm bs = (pcm', bs') -> VL n pcm' /\ length pcm' = length pcm.
+Proof.
+  induction cnt as [|c IH]; intros sub pcm bs pcm' bs' Hv Hl H; cbn [residues_in] in H; [inversion H; subst; auto|].
+  match type of H with context [if r_type ?r =? 2 then _ else _] => set (rr := r) in * end.
+  set (idx := chans_of (m_mux m) sub) in *.
+  assert (forall j, In j idx -> (j < length pcm)%nat) as Hidx by (intros j Hj; rewrite Hl; eapply chans_of_lt; exact Hj).
+  destruct (r_type rr =? 2).
+  - destruct (res2_inverse ds rr halfn (map (fun j => nth j pcm []) idx) (map (fun j => nth j nz false) idx) bs) as [vs b] eqn:E.
+    apply (res2_inverse_VL n) in E; [|apply map_nth_VL; assumption]. destruct E as [A _].
+    apply IH in H; [|apply put_back_VL; assumption|rewrite put_back_len; exact Hl].
+    destruct H as [C D]. split; [exact C|rewrite D, put_back_len; reflexivity].
+  - set (used := filter (fun j => nth j nz false) idx) in *.
+    assert (forall j, In j used -> (j < length pcm)%nat) as Hused by (intros j Hj; apply Hidx; unfold used in Hj; apply filter_In in Hj; tauto).
+    destruct (res01_inverse ds rr halfn (map (fun j => nth j pcm []) used) bs) as [vs b] eqn:E.
+    apply (res01_inverse_VL n) in E; [|apply map_nth_VL; assumption]. destruct E as [A _].
+    apply IH in H; [|apply put_back_VL; assumption|rewrite put_back_len; exact Hl].
+    destruct H as [C D]. split; [exact C|rewrite D, put_back_len; reflexivity].
+Qed.
+
+Lemma uncouple_VL n : forall coupling pcm,
+  Forall (fun p => 0 <= fst p < Z.of_nat (length pcm) /\ 0 <= snd p < Z.of_nat (length pcm)) coupling ->
+  VL n pcm -> VL n (uncouple coupling pcm) /\ length (uncouple coupling pcm) = length pcm.
+Proof.
+  intros coupling pcm Hc. unfold uncouple.
+  assert (Forall (fun p => 0 <= fst p < Z.of_nat (length pcm) /\ 0 <= snd p < Z.of_nat (length pcm)) (rev coupling)) as Hr
+    by (apply Forall_forall; intros p Hp; rewrite Forall_forall in Hc; apply Hc; apply in_rev; exact Hp).
+  clear Hc. revert pcm Hr.
+  induction (rev coupling) as [|[mg an] rest IH]; intros pcm Hr Hv; cbn [fold_left]; [auto|].
+  inversion Hr as [|? ? Hp Hrest]; subst. cbn [fst snd] in Hp.
+  set (M := nth (Z.to_nat mg) pcm []). set (A := nth (Z.to_nat an) pcm []).
+  set (prs := map (fun q => couple_one (fst q) (snd q)) (combine M A)).
+  assert (length M = n /\ length A = n) as [LM LA] by (unfold M, A; split; apply nth_VL; try exact Hv; lia).
+  assert (length prs = n) as Lp by (unfold prs; rewrite map_length, combine_length; lia).
+  set (pcm1 := lset (lset pcm (Z.to_nat mg) (map fst prs)) (Z.to_nat an) (map snd prs)).
+  assert (VL n pcm1) as H1 by (unfold pcm1; apply lset_VL; [apply lset_VL; [exact Hv|rewrite map_length; exact Lp]|rewrite map_length; exact Lp]).
+  assert (length pcm1 = length pcm) as H2 by (unfold pcm1; rewrite !lset_length; reflexivity).
+  specialize (IH pcm1). rewrite H2 in IH. specialize (IH Hrest H1). destruct IH as [C D]. split; [exact C|lia].
+Qed.
+
+(* the channel outputs of a decoded packet *)
+Definition chan_len (c : chan_out) : nat :=
+  match c with CSpectrum v => length v | CFloor0 _ _ v => length v end.
+
+Lemma apply_floor_len ds m halfn j mm vec : 0 <= halfn -> length vec = Z.to_nat halfn ->
+  chan_len (apply_floor ds m halfn j mm vec) = Z.to_nat halfn.
+Proof.
+  intros Hh Hl. unfold apply_floor. destruct mm as [|fit|a l]; cbn [chan_len].
+  - apply repeat_length.
+  - destruct (nth _ (s_floors (ds_setup ds)) _) as [o r b ab ad bl|pc cl mu rb po]; cbn [chan_len]; [exact Hl|].
+    rewrite map_length, combine_length, floor1_curve_length by exact Hh. lia.
+  - exact Hl.
+Qed.
+
+Lemma floors_in_length ds m : forall mux bs, length (fst (floors_in ds m mux bs)) = length mux.
+Proof.
+  induction mux as [|sub rest IH]; intros bs; cbn [floors_in]; [reflexivity|].
+  destruct (floor_inverse1 ds _ bs) as [mm r]. specialize (IH r).
+  destruct (floors_in ds m rest r) as [l r2]. cbn in *. f_equal. exact IH.
+Qed.
+
+(* SHAPE of a decoded packet, for ANY packet bytes under ANY accepted set-up:
+   one output per channel, each with exactly blocksize/2 spectral lines *)
+Theorem synthesis_shapes ds pkt :
+  setup_wf (i_channels (ds_ident ds)) (ds_setup ds) -> 0 <= i_channels (ds_ident ds) ->
+  0 <= i_bs0 (ds_ident ds) -> 0 <= i_bs1 (ds_ident ds) ->
+  let o := synthesis ds pkt in
+  po_verdict o = POk ->
+  let n := if po_W o =? 1 then i_bs1 (ds_ident ds) else i_bs0 (ds_ident ds) in
+  length (po_chans o) = Z.to_nat (i_channels (ds_ident ds)) /\
+  Forall (fun c => chan_len c = Z.to_nat (n / 2)) (po_chans o).
+Proof.
+  intros Hwf Hch Hb0 Hb1. unfold synthesis.
+  destruct (rdm 1 _) as [t r0]. destruct (negb (t =? 0)); [cbn; discriminate|].
+  destruct (rdm _ r0) as [mode r1].
+  destruct ((mode <? 0) || (mode >=? Z.of_nat (length (s_modes (ds_setup ds))))) eqn:Em; [cbn; discriminate|].
+  set (md := nth (Z.to_nat mode) (s_modes (ds_setup ds)) {| md_blockflag := 0; md_mapping := 0 |}).
+  destruct (if md_blockflag md =? 1 then rdm 1 r1 else (0, r1)) as [lW r2].
+  destruct (if md_blockflag md =? 1 then rdm 1 r2 else (0, r2)) as [nW r3].
+  destruct (nW <? 0); [cbn; discriminate|].
+  set (m := nth (Z.to_nat (md_mapping md)) (s_maps (ds_setup ds)) _).
+  set (nn := if md_blockflag md =? 1 then i_bs1 (ds_ident ds) else i_bs0 (ds_ident ds)).
+  destruct (floors_in ds m (m_mux m) r3) as [memos r4] eqn:Ef.
+  set (halfn := nn / 2).
+  destruct (residues_in ds m halfn _ 0 _ _ r4) as [pcm1 r5] eqn:Er.
+  cbn [po_verdict po_W po_chans]. intros _.
+  (* the selected mode and mapping are those of the well-formed set-up *)
+  destruct Hwf as (_ & _ & _ & _ & _ & Hml & Hmaps & Hmol & Hmodes).
+  assert (In md (s_modes (ds_setup ds))) as Hmd by (unfold md; apply nth_In; lia).
+  rewrite Forall_forall in Hmodes. specialize (Hmodes md Hmd). destruct Hmodes as [Hmi _].
+  assert (In m (s_maps (ds_setup ds))) as Hm by (unfold m; apply nth_In; lia).
+  rewrite Forall_forall in Hmaps. specialize (Hmaps m Hm).
+  destruct Hmaps as (_ & Lmux & _ & Hcoup & _).
+  assert (0 <= halfn) as Hh by (unfold halfn, nn; destruct (md_blockflag md =? 1); apply Z.div_pos; lia).
+  assert (length memos = length (m_mux m)) as Lmem by (pose proof (floors_in_length ds m (m_mux m) r3) as G; rewrite Ef in G; exact G).
+  set (pcm0 := map (fun _ : memo => repeat fzero (Z.to_nat halfn)) memos) in *.
+  assert (VL (Z.to_nat halfn) pcm0) as V0 by (unfold VL, pcm0; apply Forall_forall; intros v Hv; apply in_map_iff in Hv; destruct Hv as [? [<- _]]; apply repeat_length).
+  assert (length pcm0 = length (m_mux m)) as L0 by (unfold pcm0; rewrite map_length; exact Lmem).
+  apply (residues_in_VL (Z.to_nat halfn)) in Er; [|exact V0|exact L0]. destruct Er as [V1 L1].
+  assert (Forall (fun p => 0 <= fst p < Z.of_nat (length pcm1) /\ 0 <= snd p < Z.of_nat (length pcm1)) (m_coupling m)) as Hc2.
+  { apply Forall_forall. intros p Hp. rewrite Forall_forall in Hcoup. specialize (Hcoup p Hp). rewrite L1, L0, Lmux. lia. }
+  destruct (uncouple_VL (Z.to_nat halfn) (m_coupling m) pcm1 Hc2 V1) as [V2 L2].
+  set (pcm2 := uncouple (m_coupling m) pcm1) in *.
+  assert (nn = (if md_blockflag md =? 1 then i_bs1 (ds_ident ds) else i_bs0 (ds_ident ds))) as En by reflexivity.
+  split.
+  - rewrite map_length, !combine_length, seq_length. lia.
+  - apply Forall_forall. intros c Hc. apply in_map_iff in Hc. destruct Hc as [[[j mm] v] [<- Hin]].
+    fold halfn. apply apply_floor_len; [exact Hh|].
+    apply in_combine_r in Hin. unfold VL in V2. rewrite Forall_forall in V2. apply V2. exact Hin.
+Qed.
